@@ -25,7 +25,7 @@ from .c01 import _Case
 PROP = "C06"
 LEVEL = "exploration"
 RULE = (
-    "case = (date stratum >= 2015, population, reform) with reform in {scale all numeric leaves of one "
+    "case = (date stratum >= 2015 or one of the sampled strata of 2005-2014 with the screened node universe, population, reform) with reform in {scale all numeric leaves of one "
     "group, change one leaf, deep-copy params, deep-copy one group, clone one rule, replace one float "
     "rule by f+1 via functions=[env, {name: user_f}], change one rounding base}.  Non-trivial = the "
     "set D of dependants is a non-empty proper subset of the nodes and at least one node in D really "
